@@ -49,7 +49,7 @@ def machine_spec(
     sends=False,
     send_unknown=True,
     attach=("conv", "name", "func", "deco"),
-    guard_kinds=("method", "property"),
+    guard_kinds=("method", "property", "attr"),
     max_extra=8,
     rets=RET_POOL,
     multi_provider=True,
